@@ -1,6 +1,8 @@
 import SiaModel.Ledger.Model
 import SiaProofs.Lemmas.LedgerC06Store
 import SiaProofs.Lemmas.LedgerC06Genuine
+import SiaProofs.Lemmas.LedgerC06Chain
+import SiaModel.Driver.LedgerRevert
 import SiaProofs.Props.C08
 /-!
 # C06 — revert is the exact inverse of apply
@@ -191,5 +193,130 @@ def exBlock : Block :=
 example : (validateBlock (C08.Ex.L 15) exBlock 1014).toOption.isSome = true := by decide
 example : (applyBlock (C08.Ex.L 15) exBlock).toOption.isSome = true := by decide
 example : LedgerIds (C08.Ex.L 15) := ⟨by decide, by decide, by decide, by decide⟩
+
+-- ================================================================= the driver op computes `revertDiffs`
+
+/-- the `ledger-revert` correspondence op prints exactly the revert report the theorems are about -/
+theorem tie_ledger_revert_op : revertDiffs = Sia.Driver.revertReport := rfl
+
+-- ================================================================= chains and reorganisations
+
+/-- A chain of accepted blocks: each block passes `validateBlock` on the ledger it extends, is
+applied by `applyBlock` (giving the next ledger and the mid-state whose diffs the apply / revert
+updates report), and creates only ids that are not live (`FreshCreated`). -/
+inductive Chain : Ledger → List (Block × Id) → List Mid → Ledger → Prop where
+  | nil (L : Ledger) : Chain L [] [] L
+  | cons {L L' L'' : Ledger} {b : Block} {pid : Id} {ms ms0 : Mid} {bs : List (Block × Id)} {mss : List Mid} :
+      validateBlock L b pid = .ok ms0 → applyBlock L b = .ok (L', ms) → FreshCreated L ms →
+      Chain L' bs mss L'' → Chain L ((b, pid) :: bs) (ms :: mss) L''
+
+/-- the store after the apply updates of a list of blocks, oldest first -/
+def applyUpdates (S : Store) (mss : List Mid) : Store := mss.foldl applyStore S
+/-- the store after the revert updates of a list of blocks, in the order given (newest first for a reorg) -/
+def revertUpdates (S : Store) (mss : List Mid) : Store :=
+  mss.foldl (fun S ms => revertStore S ms.sces.reverse ms.sfes.reverse ms.fces.reverse ms.v2fces.reverse) S
+
+theorem applyUpdates_append (S : Store) (a b : List Mid) : applyUpdates S (a ++ b) = applyUpdates (applyUpdates S a) b := by
+  simp [applyUpdates]
+
+theorem chain_ledgerIds {L L' : Ledger} {bs : List (Block × Id)} {mss : List Mid} (hL : LedgerIds L)
+    (h : Chain L bs mss L') : LedgerIds L' := by
+  induction h with
+  | nil => exact hL
+  | cons _ ha _ _ ih => exact ih (applyBlock_ledgerIds hL ha)
+
+/-- along a chain the store driven by the apply updates is the store of the tip ledger -/
+theorem chain_tracks {L L' : Ledger} {bs : List (Block × Id)} {mss : List Mid} (hL : LedgerIds L)
+    (h : Chain L bs mss L') : applyUpdates (Store.ofLedger L) mss = Store.ofLedger L' := by
+  induction h with
+  | nil => rfl
+  | cons hv ha _ _ ih =>
+    simp only [applyUpdates, List.foldl_cons]
+    rw [c06_store_tracks_ledger _ _ _ _ _ _ hL hv ha]
+    exact ih (applyBlock_ledgerIds hL ha)
+
+/-- `c06_history_inverse`: for any chain of accepted blocks from a ledger with unique ids, applying
+the client store's apply update for every block and then its revert update for every block in
+reverse order returns exactly the initial store. -/
+theorem c06_history_inverse {L L' : Ledger} {bs : List (Block × Id)} {mss : List Mid} (hL : LedgerIds L)
+    (h : Chain L bs mss L') :
+    revertUpdates (applyUpdates (Store.ofLedger L) mss) mss.reverse = Store.ofLedger L := by
+  induction h with
+  | nil => rfl
+  | cons hv ha hF hrest ih =>
+    rename_i L1 L2 L3 b pid ms ms0 bs' mss'
+    have hL2 := applyBlock_ledgerIds hL ha
+    have e1 : applyUpdates (Store.ofLedger L1) (ms :: mss') = applyUpdates (Store.ofLedger L2) mss' := by
+      simp only [applyUpdates, List.foldl_cons]
+      rw [c06_store_tracks_ledger _ _ _ _ _ _ hL hv ha]
+    rw [e1, List.reverse_cons]
+    unfold revertUpdates
+    rw [List.foldl_append]
+    have := ih hL2
+    unfold revertUpdates at this
+    rw [this]
+    simp only [List.foldl_cons, List.foldl_nil]
+    rw [← c06_store_tracks_ledger _ _ _ _ _ _ hL hv ha]
+    exact c06_store_inverse _ _ _ _ _ _ hL hv ha hF
+
+/-- `c06_reorg_equiv`: after following `pre ++ old`, reverting the `old` blocks and applying a
+different valid continuation `new`, the store equals the store obtained by following `pre ++ new`
+directly — and both are the store of the new tip: the store is a function of the chain, not of
+the path taken. -/
+theorem c06_reorg_equiv {L0 Lk Ln Lm : Ledger} {pre old new : List (Block × Id)} {mpre mold mnew : List Mid}
+    (hL : LedgerIds L0) (hpre : Chain L0 pre mpre Lk) (hold : Chain Lk old mold Ln) (hnew : Chain Lk new mnew Lm) :
+    applyUpdates (revertUpdates (applyUpdates (Store.ofLedger L0) (mpre ++ mold)) mold.reverse) mnew =
+      applyUpdates (Store.ofLedger L0) (mpre ++ mnew) ∧
+    applyUpdates (Store.ofLedger L0) (mpre ++ mnew) = Store.ofLedger Lm := by
+  have hLk := chain_ledgerIds hL hpre
+  have e1 := chain_tracks hL hpre
+  rw [applyUpdates_append, applyUpdates_append, e1, c06_history_inverse hLk hold]
+  exact ⟨rfl, chain_tracks hLk hnew⟩
+
+/-- `c06_revert_then_apply_same_block`: reverting a block brings the store back to the store of the
+ledger `L` it was applied to; re-applying the block there is the same computation `applyBlock L b`
+(same ledger, same report — `c06_reapply_identical`), and the store is again that of the new ledger. -/
+theorem c06_revert_then_apply_same_block (L L' : Ledger) (b : Block) (pid : Id) (ms0 ms : Mid) (hL : LedgerIds L)
+    (hv : validateBlock L b pid = .ok ms0) (ha : applyBlock L b = .ok (L', ms)) (hF : FreshCreated L ms) :
+    let reverted := revertStore (applyStore (Store.ofLedger L) ms) ms.sces.reverse ms.sfes.reverse ms.fces.reverse ms.v2fces.reverse
+    reverted = Store.ofLedger L ∧
+      (∀ r, applyBlock L b = .ok r → r = (L', ms)) ∧ applyStore reverted ms = Store.ofLedger L' := by
+  have h1 := c06_store_inverse L L' b pid ms0 ms hL hv ha hF
+  refine ⟨h1, fun r hr => ?_, ?_⟩
+  · rw [ha] at hr; cases hr; rfl
+  · rw [h1]
+    exact c06_store_tracks_ledger L L' b pid ms0 ms hL hv ha
+
+-- ------------------------------------------------------------------ non-vacuity: the two shapes that were real defects
+
+/-- a v1 storage proof for contract 301 (window start = child height 15, so the parent block is the
+window-start block) placed after a revision of the same contract in the same block -/
+def tProofAfterRev : Txn1 := { C08.Ex.txn1 with proofs := [{ parent := 301, proofOk := true, outIds := [401] }] }
+/-- a second v2 revision of contract 501 in the same block -/
+def tRev2b : Txn2 := { C08.Ex.txn2 with revs := [{ parent := C08.Ex.c2, rev := { C08.Ex.c2.fc with revNum := 3 }, sigCurOk := true }] }
+
+/-- one block that revises-then-resolves a v1 contract and revises a v2 contract twice -/
+def reorgBlock : Block :=
+  { txns1 := [C08.tRev1 15, tProofAfterRev], v2 := some (15, true, [C08.tRev2, tRev2b]), payouts := [(900, { value := 30000, addr := 5 })], foundationOutId := 901, expiring := [], headerOk := true, blockId := 1015, maxWeight := 1000 }
+
+def reorgMs0 : Mid := match validateBlock (C08.Ex.L 15) reorgBlock 1014 with | .ok m => m | _ => default
+def reorgRes : Ledger × Mid := match applyBlock (C08.Ex.L 15) reorgBlock with | .ok r => r | _ => default
+
+theorem reorgBlock_valid : validateBlock (C08.Ex.L 15) reorgBlock 1014 = .ok reorgMs0 := by decide
+theorem reorgBlock_applies : applyBlock (C08.Ex.L 15) reorgBlock = .ok (reorgRes.1, reorgRes.2) := by decide
+theorem reorgBlock_fresh : FreshCreated (C08.Ex.L 15) reorgRes.2 := ⟨by decide, by decide, by decide, by decide⟩
+
+-- the block really has the two shapes: a v1 diff that is revised and resolved but not created, keeping
+-- the pre-block element; a v2 diff holding the second revision over the pre-block element
+example : reorgRes.2.fces.any (fun d => d.revision.isSome && d.resolved && !d.created && d.e == C08.Ex.c1) = true := by decide
+example : reorgRes.2.v2fces.any (fun d => d.revision == some { C08.Ex.c2.fc with revNum := 3 } && d.e == C08.Ex.c2) = true := by decide
+
+/-- the hypotheses of `c06_history_inverse` / `c06_reorg_equiv` are satisfiable by that block -/
+theorem reorgChain : Chain (C08.Ex.L 15) [(reorgBlock, 1014)] [reorgRes.2] reorgRes.1 :=
+  Chain.cons reorgBlock_valid reorgBlock_applies reorgBlock_fresh (Chain.nil _)
+
+example : revertUpdates (applyUpdates (Store.ofLedger (C08.Ex.L 15)) [reorgRes.2]) [reorgRes.2].reverse =
+    Store.ofLedger (C08.Ex.L 15) :=
+  c06_history_inverse ⟨by decide, by decide, by decide, by decide⟩ reorgChain
 
 end C06
